@@ -243,7 +243,9 @@ class AsyncServer(base_server.BaseServer):
 
         # make sure the client uses an allowed transport
         transport = query.get('transport', ['polling'])[0]
-        if transport not in self.transports:
+        if transport not in self.transports or (
+                'websocket' not in self.transports and
+                environ.get('HTTP_UPGRADE', '').lower() == 'websocket'):
             self._log_error_once('Invalid transport', 'bad-transport')
             return await self._make_response(
                 self._bad_request('Invalid transport'), environ)
